@@ -114,6 +114,34 @@ def run_corpus(prop, goit, sbase, model_ok, stats):
                                            "step_name": steps[i].name if steps[i].kind == "cmd" else ""})
 
 
+def extraction_crosscheck(prop, goit, sbase, tier, stats):
+    """the same histories evaluated by vm_compute on the Coq model itself and by the OCaml extraction
+    must give the same final world (HEAD text, branch files, index bytes, object ids)"""
+    import coqeval
+    from hist import model_lines, run_model, c_init, c_config, c_add, c_commit, Edit
+    cases = [steps for _, _, steps in corpus_cases(prop)][: (2 if tier == "quick" else 12)]
+    if not cases:
+        cases = [[c_init(), c_config(b"user.name", b"Al Bo"), c_config(b"user.email", b"a@b.cc"),
+                  Edit("write", b"d/x y", b"1"), Edit("write", b"d-a", b"2"), c_add([b"."]), c_commit(b"m: x")]]
+    hs, ds = [], []
+    try:
+        for steps in cases:
+            recs = runner.run_steps(goit, steps, len(steps), base=sbase)
+            lines = model_lines(recs)
+            hs.append(lines)
+            ds.append(coqeval.digest_of_mworld(run_model(lines)[-1]))
+        cd = coqeval.coq_digests(hs)
+    except Exception as e:
+        stats["notes"].append("extraction cross-check not run: %r" % (e,))
+        return
+    ok = cd == ds
+    stats["notes"].append("extraction cross-check: %d histories evaluated by vm_compute inside Coq, %s the extracted driver"
+                          % (len(hs), "all agree with" if ok else "DIFFER from"))
+    if not ok:
+        stats["corr_failures"].append({"seed": None, "steps": cases[0], "i": 0, "step_name": "extraction",
+                                       "diffs": ["model flagged: the OCaml extraction and vm_compute on the Coq model disagree: %s vs %s" % (ds, cd)]})
+
+
 def run_property(prop, goit, sbase, seed, tier, ncases, nsteps, model_ok):
     rule = ("histories of %d steps generated state-aware from one PRNG (seed) with the %s profile, run on the goit "
             "binary built from /repo and replayed on the extracted Coq model; a history is non-trivial when it "
@@ -121,6 +149,8 @@ def run_property(prop, goit, sbase, seed, tier, ncases, nsteps, model_ok):
             % (nsteps, prop))
     stats = new_stats(rule)
     run_corpus(prop, goit, sbase, model_ok, stats)
+    if model_ok:
+        extraction_crosscheck(prop, goit, sbase, tier, stats)
     extra = EXTRA.get(prop)
     if extra:
         extra(prop, goit, sbase, seed, tier, model_ok, stats)
